@@ -80,6 +80,7 @@ fn main() {
         "factory_finished" => worker::factory_finished(&args),
         "factory_pool" => worker::factory_pool(&args),
         "routing" => routing::run(&args),
+        "route_kp" => routing::route_kp(&args),
         "outport" => outport::run(&args),
         "pg" => pg::run(&args),
         "pg_race" => pg::race(&args),
